@@ -56,7 +56,7 @@ const Matrix<double>& AutoCorrelationTransitionMatrix::getPij() const
     {
       for (size_t j = 0; j < vAutocorrel_.size(); ++j)
       {
-        pij_(i, j) = (i == j) ? vAutocorrel_[i] : (1 - vAutocorrel_[i]) / static_cast<double>(getNumberOfStates() - 1);
+        pij_(i, j) = Pij(i, j);
       }
     }
 
